@@ -104,6 +104,25 @@ func nastyAlphabet(cfg histCfg, w *World) []histAnswer {
 			})
 		}
 	}
+	// (1b) DCMI sensor-info pages whose total-instances byte disagrees with what
+	// earlier pages said (each reply well-formed on its own)
+	for _, total := range []byte{0, 1, 2, 3, 200, 255} {
+		total := total
+		add(fmt.Sprintf("dcmi-sensor-info/total=%d", total), func(t *env.Transport, rx *ref.Rx) []byte {
+			if rx.Msg == nil || rx.Msg.NetFn != 0x2c || rx.Msg.Cmd != 0x07 || len(rx.Body) < 3 {
+				return nil
+			}
+			body := append([]byte{}, rx.Body...)
+			body[1] = total
+			return t.BMC.Respond(rx, 0, body)
+		})
+		add(fmt.Sprintf("dcmi-sensor-info/total=%d/empty-page", total), func(t *env.Transport, rx *ref.Rx) []byte {
+			if rx.Msg == nil || rx.Msg.NetFn != 0x2c || rx.Msg.Cmd != 0x07 {
+				return nil
+			}
+			return t.BMC.Respond(rx, 0, []byte{0xDC, total, 0})
+		})
+	}
 	// (2) honest body cut at every length and extended
 	for n := 0; n <= 40; n++ {
 		n := n
@@ -309,6 +328,15 @@ func runC05Proto(r *rep.R, idx *int64) {
 	// session-less positions, including every page of cipher-suite discovery
 	for _, op := range []int{opSystemGUID, opAuthCaps, opDiscover} {
 		cfg := histCfg{Suite: suite, InSession: false, Ops: []int{op}, Horizon: 6, Alphabet: "nasty"}
+		histExploreWith(r, "C05", cfg, 1, idx, c05ProtoJudge)
+	}
+	// every completion code on a matching reply (the code ends up in error
+	// texts and metric labels)
+	for _, inSess := range []bool{true, false} {
+		cfg := histCfg{Suite: suite, InSession: inSess, Ops: []int{opGetDeviceID}, Horizon: 2, Alphabet: "codes"}
+		if !inSess {
+			cfg.Ops = []int{opSystemGUID}
+		}
 		histExploreWith(r, "C05", cfg, 1, idx, c05ProtoJudge)
 	}
 	// handshake positions (discovery, Open Session, RAKP 2, RAKP 4)
